@@ -69,9 +69,12 @@ def replay(ctx, binp, cases, label):
     out, res = run_driver(ctx, binp, ["-mode", "replay", "-cases", cases], "replay-" + label)
     if res is None:
         return None
-    if res["evaluations"] == 0 or res["accepted"] == 0 or res["rejected"] == 0:
-        raise Infra("replay %s is vacuous: %s" % (label, {k: res[k] for k in ("evaluations", "accepted", "rejected")}))
     report_devs(ctx, res["deviations"], "replay-" + label, {"mode": "replay", "cases": os.path.basename(cases), "tlc_cfg": label})
+    hung = "stopped_after_hang_at_case" in res["extra"]
+    if hung:
+        ctx.cov["replay_stopped_after_a_hang"] = res["extra"]["stopped_after_hang_at_case"]
+    if not hung and (res["evaluations"] == 0 or res["accepted"] == 0 or res["rejected"] == 0):
+        raise Infra("replay %s is vacuous: %s" % (label, {k: res[k] for k in ("evaluations", "accepted", "rejected")}))
     for s in res["samples"][:2]:
         ctx.sample(s, limit=8)
     return res
@@ -87,17 +90,24 @@ def replay_binding_demo(ctx, binp, cases):
         raise Infra("binding demo: expected cases missing from the TLC export")
     flipped = dict(canon[0], ok=False, id="demo/flipped-verdict")
     respelt = dict(canon[0], x=longf[0]["x"], id="demo/respelt-bytes")
+    # stream entry points: a trailing-byte case (DecodeBytes rejects, the stream decode accepts the front) with the number of
+    # consumed bytes falsified, and one with the stream verdict flipped
+    trail = [c for c in cs if c["kind"] == "txlist" and c["site"] == "top" and c["form"] == "trailing-0x00"]
+    if not trail or not trail[0]["s0"]["ok"] or trail[0]["ok"]:
+        raise Infra("binding demo: the trailing-byte stream case is missing or not accepted by the model's stream decode")
+    badn = dict(trail[0], s0=dict(trail[0]["s0"], n=trail[0]["s0"]["n"] - 1), id="demo/stream-consumed-falsified")
+    bads = dict(trail[0], s1=dict(trail[0]["s1"], ok=not trail[0]["s1"]["ok"]), id="demo/stream-verdict-flipped")
     p = os.path.join(ctx.tmp("replay-demo"), "cases.ndjson")
-    write_ndjson(p, [flipped, respelt])
+    write_ndjson(p, [flipped, respelt, badn, bads])
     out = ctx.tmp("replay-demo-out")
     rc, o = ctx.run([binp, "-mode", "replay", "-cases", p, "-out", out], timeout=120)
     if rc != 0:
         raise Infra("binding demo: driver failed: " + o[-800:])
     res = json.load(open(os.path.join(out, "result.json")))
     hit = {d["id"] for d in res["deviations"] if d["sig"].startswith("verdict-mismatch")}
-    if hit != {"demo/flipped-verdict", "demo/respelt-bytes"}:
+    if hit != {"demo/flipped-verdict", "demo/respelt-bytes", "demo/stream-consumed-falsified", "demo/stream-verdict-flipped"}:
         raise Infra("binding demonstration failed: corrupted cases not flagged by the replay (%s)" % sorted(hit))
-    return "replay: a flipped model verdict and a respelt byte string were both flagged"
+    return "replay: a flipped model verdict, a respelt byte string, a falsified stream byte count and a flipped stream verdict were all flagged"
 
 
 # ------------------------------------------------------------------------------------------------- impl -> model
